@@ -26,7 +26,7 @@ def contextvar_attr_uses(an: Analysis):
     prog = an.prog
     owners = {prog.cls(c[0]).qualname for c in c02.CTX_CLASSES.values()}
     out = []
-    for fi in prog.functions.values():
+    for fi in prog.scan_functions():
         for n in fi.own_nodes():
             if isinstance(n, ast.Attribute):
                 o = c02.contextvar_owner(an, fi, n)
@@ -46,7 +46,7 @@ def _is_contextvar(an: Analysis, ci, attr: str) -> bool:
 def global_writes(an: Analysis, module_prefix: str):
     """`global x` / `nonlocal`-free module state, `cls.x = ...` and `ClassName.x = ...` stores in functions."""
     out = []
-    for fi in an.prog.functions.values():
+    for fi in an.prog.scan_functions():
         if not (fi.module.name == module_prefix or fi.module.name.startswith(module_prefix + ".")):
             continue
         sn = an.prog.self_name(fi)
@@ -113,7 +113,7 @@ def check(an: Analysis) -> None:
     # ------------------------------------------------------------------ C03.3 task creation copies the context
     ob = an.ob("C03.3", "K5/K10", "every create_task in the package either passes no context= (the loop copies the current one) or context=copy_context() evaluated at the call; never a stored/shared Context (API_FACT 11)")
     n_sites = 0
-    for fi in prog.functions.values():
+    for fi in prog.scan_functions():
         for n in fi.own_nodes():
             if isinstance(n, ast.Call) and isinstance(n.func, ast.Attribute) and n.func.attr == "create_task":
                 n_sites += 1
@@ -174,7 +174,7 @@ def _derivation_sites(an: Analysis, ob) -> None:
         prog.fn("context.access.ctx.updated").qualname,
     }
     n = 0
-    for fi in prog.functions.values():
+    for fi in prog.scan_functions():
         for c in fi.own_nodes():
             if isinstance(c, ast.Call) and an.callee(fi, c) == upd_q:
                 n += 1
